@@ -2,6 +2,7 @@ import CogentModel.Json
 import CogentModel.Model.View
 import CogentModel.Model.FeatureView
 import CogentModel.Model.FeatureSeq
+import CogentModel.Model.FeatureProject
 import CogentModel.Spec.FeatureView
 open CogentModel CogentModel.View CogentModel.FeatureView
 
@@ -23,6 +24,19 @@ def parseSpans (j : J) : Except String (List (Int × Int)) := j.toListOf (J.toPa
 def mspanJ : MSpan → J
   | .span s e => J.arr [J.num s, J.num e]
   | .lost n => J.arr [J.str "lost", J.num n]
+
+def parseFSp (j : J) : Except String FMap.FSp := do
+  match ← j.toList with
+  | [J.str "s", a, b, r] => pure (.span (← a.toInt) (← b.toInt) (← r.toBool))
+  | [J.str "l", n] => pure (.lost (← n.toInt))
+  | _ => throw "bad span"
+
+def parseFM (j : J) : Except String FMap.FM := do
+  pure ⟨← (← j.get "spans").toListOf parseFSp, ← (← j.get "pl").toInt⟩
+
+def fspJ : FMap.FSp → J
+  | .span s e r => J.arr [J.str "s", J.num s, J.num e, J.bool r]
+  | .lost n => J.arr [J.str "l", J.num n]
 
 def handle (cmd : String) (j : J) : Except String J :=
   match cmd with
@@ -53,6 +67,12 @@ def handle (cmd : String) (j : J) : Except String J :=
     match featureOnView v (← (← j.get "minus").toBool) (← parseSpans (← j.get "spans")) with
     | .error e => pure (errJ e)
     | .ok f => pure (J.str (String.ofList (getSlice comp s f)))
+  | "project" => do
+    -- Aligned.make_feature: inverted[feature.map]
+    match FMap.project (← parseFM (← j.get "A")) (← parseFM (← j.get "fm")) with
+    | .error _ => pure (J.obj [("err", J.str "error")])
+    | .ok r => pure (J.obj [("spans", J.arr (r.spans.map fspJ)), ("pl", J.num r.parentLength),
+                            ("cover", J.arr ((FMap.cover r).map J.ofOptInt))])
   | "denote" => do
     let spans ← parseSpans (← j.get "spans")
     let (ps, comp) := FeatureSpec.denote spans (← (← j.get "minus").toBool) (← (← j.get "p0").toInt) (← (← j.get "p1").toInt)
